@@ -28,16 +28,17 @@ type unlimitedSchedule struct {
 }
 
 func (s *unlimitedSchedule) Start(startAt time.Time) {
-	s.MarkStarted()
+	// finish should be set before schedule is marked as started: concurrent Left() reads both
 	s.startOnce.Do(func() {
 		s.finish.Store(startAt.Add(s.duration))
 	})
+	s.MarkStarted()
 }
 
 func (s *unlimitedSchedule) Next() (tx time.Time, ok bool) {
 	s.startOnce.Do(func() {
-		s.MarkStarted()
 		s.finish.Store(time.Now().Add(s.duration))
+		s.MarkStarted()
 	})
 	now := time.Now()
 	finish := s.finish.Load()
